@@ -184,8 +184,9 @@ def gen(rnd, tls):
     expected = []     # (availability tick of the message's last byte, event)
     for b in range(rnd.choice([1, 2, 3])):
         t += rnd.choice([1, 500, 61 * 1024, 3 * 60 * 1024])
-        kind = rnd.choice(["many-small", "around-16k", "around-64k", "spanning", "mixed", "huge"])
+        kind = rnd.choice(["many-small", "around-16k", "around-64k", "spanning", "mixed", "huge", "empty-last", "empty-last"])
         frames = []
+        raw = None
         if kind == "many-small":
             for i in range(rnd.choice([2, 50, 1000, 5000])):
                 p = bytes([i & 0xFF]) * rnd.choice([0, 1, 3])
@@ -197,11 +198,24 @@ def gen(rnd, tls):
             frames = [(2, scen.rand_bytes(rnd, rnd.choice([65536 - 10 - 1, 65536 - 10, 65536 - 9, 65536, 65537, 100000]))), (1, b"tail"), (9, b"")]
         elif kind == "huge":
             frames = [(2, scen.rand_bytes(rnd, rnd.choice([131072 + 5, 200000, 300000]))), (1, b"t"), (9, b"h")]
+        elif kind == "empty-last":
+            # the burst ends with a frame that has no payload: an empty text message, or the empty final fragment of one
+            which = rnd.choice(["text", "cont-text", "cont-binary", "ping", "binary"])
+            if which == "text":
+                frames = [(2, b"x"), (1, b"")]
+            elif which == "ping":
+                frames = [(1, b"y"), (9, b"")]
+            elif which == "binary":
+                frames = [(1, b"y"), (2, b"")]
+            else:
+                op = 1 if which == "cont-text" else 2
+                raw = E(op, b"streamed ", fin=0) + E(0, b"message", fin=0) + E(0, b"", fin=1)
+                frames = [(op, b"streamed message")]
         elif kind == "spanning":
             frames = [(1, b"a" * 20000), (2, b"b" * 20000), (1, b"c" * 30000), (9, b"p")]
         else:
             frames = [(2, scen.rand_bytes(rnd, rnd.choice([0, 10, 5000]))) for _ in range(rnd.choice([3, 40]))] + [(9, b"x")]
-        data = b"".join(E(op, p) for op, p in frames)
+        data = raw if raw is not None else b"".join(E(op, p) for op, p in frames)
         # cut into TLS records / TCP segments, all available at the same instant t
         cuts = []
         pos = 0
